@@ -258,6 +258,25 @@ def check(ctx):
                     e.data["value"].args[1] == 0:
                 zeroed.append(idx.args[1].args[1])
         if not zeroed and not res.calls("evo.core.lie_algebra.so3_exp"):
+            # the plane is refused outright: under `plane == member` and a
+            # fresh (not yet projected) object the call ends in a raise and
+            # no pose is written
+            flagless = lambda t: tm.fold(t, lambda a: None if a.op in (
+                "and", "or", "not") else (False if any(
+                    x.op == "attr" and str(x.args[1]).startswith("_proj")
+                    for x in a.walk()) else None))
+            rz = [e for e in res.of_kind("raise")
+                  if flagless(e.live) is True]
+            if rz and not res.of_kind("setitem") and not [
+                    e for e in res.of_kind("setattr")
+                    if e.data["name"] in ("_poses_se3",)]:
+                ctx.ob("C14.1", rz[0], False,
+                       f"Plane.{member}: project() raises "
+                       f"{rz[0].data.get('exc_name') or 'an exception'} for "
+                       f"this plane instead of projecting (the plane "
+                       f"dispatch no longer reaches its branch)",
+                       key=f"C14.1:{member}:refused")
+                continue
             # another construction of the planar poses altogether (the Euler
             # angle re-derived from the matrix entries ...): not modelled —
             # the summary of the vendored euler_from_matrix (A4) does not
